@@ -19,7 +19,7 @@ pub struct Op {
     pub seq: Option<u32>,
     pub name: String,
     pub class: Class,
-    /// normalised: `@ROOT/..` inside the sandbox, absolute otherwise
+    /// normalised: `/@ROOT/..` inside the sandbox, absolute otherwise
     pub path: Option<String>,
     pub path2: Option<String>,
     pub fd: Option<i32>,
@@ -274,6 +274,7 @@ impl Sandbox {
         std::fs::hard_link(&self.exe_src, &exe)?;
         std::fs::create_dir_all(self.root.join(&w.cwd))?;
         let mut dir_modes = Vec::new();
+        let mut links = Vec::new();
         for f in &w.files {
             let p = self.root.join(&f.path);
             if let Some(parent) = p.parent() {
@@ -281,7 +282,7 @@ impl Sandbox {
             }
             match &f.kind {
                 Kind::File => {
-                    // `@ROOT` inside file contents (program files naming absolute paths) is
+                    // `/@ROOT` inside file contents (program files naming absolute paths) is
                     // replaced like in argv; `snapshot` reverses it
                     if contains(&f.bytes.0, ROOT_TOKEN.as_bytes()) {
                         std::fs::write(&p, replace_bytes(&f.bytes.0, ROOT_TOKEN.as_bytes(), root.as_bytes()))?;
@@ -297,7 +298,11 @@ impl Sandbox {
                 Kind::Symlink(t) => {
                     std::os::unix::fs::symlink(World::subst(t, &root), &p)?;
                 }
+                Kind::Hardlink(t) => links.push((self.root.join(t), p)),
             }
+        }
+        for (target, p) in links {
+            std::fs::hard_link(target, p)?;
         }
         for (p, m) in dir_modes {
             std::fs::set_permissions(&p, std::fs::Permissions::from_mode(m))?;
